@@ -725,16 +725,8 @@ impl SixtyCycleDay {
     let spring_term: SolarTerm = SolarTerm::from_index(solar_year, 3);
     let spring_solar_day: SolarDay = spring_term.get_julian_day().get_solar_day();
     let lunar_day: LunarDay = solar_day.get_lunar_day();
-    let mut lunar_year: LunarYear = lunar_day.get_lunar_month().get_lunar_year();
-    if lunar_year.get_year() == solar_year {
-      if solar_day.is_before(spring_solar_day) {
-        lunar_year = lunar_year.next(-1)
-      }
-    } else if lunar_year.get_year() < solar_year {
-      if !solar_day.is_before(spring_solar_day) {
-        lunar_year = lunar_year.next(1);
-      }
-    }
+    // 干支年以立春为界，立春前属上一年；不能由农历年推算（公元15、18年末农历年首早于公历年首）
+    let lunar_year: LunarYear = LunarYear::from_year(if solar_day.is_before(spring_solar_day) { solar_year - 1 } else { solar_year });
     let term: SolarTerm = solar_day.get_term();
     let mut index: isize = term.get_index() as isize - 3;
     // 直接比较儒略日：公元1年1月初所在的冬至属于公元前1年，不能构造成公历日
@@ -902,16 +894,7 @@ impl SixtyCycleHour {
     let spring_solar_time: SolarTime = spring_term.get_julian_day().get_solar_time();
     let lunar_hour: LunarHour = solar_time.get_lunar_hour();
     let lunar_day: LunarDay = lunar_hour.get_lunar_day();
-    let mut lunar_year: LunarYear = lunar_day.get_lunar_month().get_lunar_year();
-    if lunar_year.get_year() == solar_year {
-      if solar_time.is_before(spring_solar_time) {
-        lunar_year = lunar_year.next(-1);
-      }
-    } else if lunar_year.get_year() < solar_year {
-      if !solar_time.is_before(spring_solar_time) {
-        lunar_year = lunar_year.next(1);
-      }
-    }
+    let lunar_year: LunarYear = LunarYear::from_year(if solar_time.is_before(spring_solar_time) { solar_year - 1 } else { solar_year });
     let term: SolarTerm = solar_time.get_term();
     let mut index: isize = term.get_index() as isize - 3;
     if index < 0 && term.get_julian_day().get_day() > spring_term.get_julian_day().get_day() {
